@@ -25,11 +25,12 @@ type vStart struct {
 type vJobs struct {
 	starts []vStart
 	block  chan struct{}
+	clk    *zzverifstubs.Clock
 }
 
 func (j *vJobs) job(id int, blocking bool) FuncJob {
 	return func() {
-		zzverif.Ghost(func() { j.starts = append(j.starts, vStart{job: id}) })
+		zzverif.Ghost(func() { j.starts = append(j.starts, vStart{job: id, at: j.clk.Now()}) })
 		if blocking {
 			<-j.block
 		}
@@ -44,6 +45,17 @@ func (j *vJobs) count(id int) int {
 		}
 	}
 	return n
+}
+
+// the instant entry id last started (its Prev): starts are stamped with the harness clock
+func vLastStartOf(j *vJobs, id int, clk *zzverifstubs.Clock) time.Time {
+	var t time.Time
+	for _, s := range j.starts {
+		if s.job == id {
+			t = s.at
+		}
+	}
+	return t
 }
 
 func vPeriod(name string) time.Duration {
@@ -62,7 +74,7 @@ func vPeriod(name string) time.Duration {
 func VerifCronSingleEntry() {
 	start := zzverif.TimeFromNanos(1_000_000_000_000)
 	clk := zzverifstubs.NewClock(start)
-	jobs := &vJobs{block: make(chan struct{})}
+	jobs := &vJobs{block: make(chan struct{}), clk: clk}
 	c := New(WithClock(clk), WithLogger(vLogger{}), WithLocation(time.UTC))
 	p := vPeriod("period")
 	id := c.Schedule(vEvery{p}, jobs.job(1, false))
@@ -115,7 +127,7 @@ func VerifCronSingleEntry() {
 func VerifCronTwoEntries() {
 	start := zzverif.TimeFromNanos(1_000_000_000_000)
 	clk := zzverifstubs.NewClock(start)
-	jobs := &vJobs{}
+	jobs := &vJobs{clk: clk}
 	c := New(WithClock(clk), WithLogger(vLogger{}), WithLocation(time.UTC))
 	p1, p2 := vPeriod("p1"), vPeriod("p2")
 	c.Schedule(vEvery{p1}, jobs.job(1, false))
@@ -136,12 +148,27 @@ func VerifCronTwoEntries() {
 	clk.AdvanceTo(start.Add(p1 + p2))
 	zzverif.WaitQuiescent()
 	zzverif.Assert(jobs.count(2) == 1, "entry_added_while_running_starts_at_its_activation")
-	n1 := jobs.count(1)
-	c.Remove(id2)
-	clk.AdvanceTo(start.Add(p1 + p2 + 4*time.Second))
+	// some time passes (not up to any activation of entry 1), then entry 2 is removed, then the clock moves exactly to
+	// entry 1's next activation: it must start then (the scheduler re-arms its timer from the current time)
+	last1 := vLastStartOf(jobs, 1, clk)
+	part := zzverif.Int64("part_ns")
+	zzverif.Assume(part >= 1)
+	zzverif.Assume(part < int64(p1))
+	now := clk.Now()
+	next1 := last1.Add(p1)
+	for !next1.After(now) {
+		next1 = next1.Add(p1)
+	}
+	zzverif.Assume(now.Add(time.Duration(part)).Before(next1))
+	clk.Advance(time.Duration(part))
 	zzverif.WaitQuiescent()
-	zzverif.Assert(jobs.count(2) == 1, "no_start_after_remove")
-	zzverif.Assert(jobs.count(1) >= n1, "other_entry_keeps_running")
+	n1, n2 := jobs.count(1), jobs.count(2)
+	c.Remove(id2)
+	zzverif.WaitQuiescent()
+	clk.AdvanceTo(next1)
+	zzverif.WaitQuiescent()
+	zzverif.Assert(jobs.count(2) == n2, "no_start_after_remove")
+	zzverif.Assert(jobs.count(1) == n1+1, "other_entry_starts_at_its_activation_after_a_remove")
 	ctx := c.Stop()
 	<-ctx.Done()
 	before := len(jobs.starts)
